@@ -245,7 +245,11 @@ func (w *wal) flush(batch WALBatch) error {
 
 func (w WALBatch) replay(fs *fileStore) error {
 	for _, row := range w {
-		fs._nextLSN = row.LSN
+		if row.LSN > fs._nextLSN {
+			// never fall behind LSNs already handed out (CREATE TABLE
+			// consumes LSNs without logging)
+			fs._nextLSN = row.LSN
+		}
 		node, err := fs.fetch(row.pageID)
 		if err != nil {
 			return err
